@@ -67,7 +67,7 @@ func (p *C19) Gen(seed uint64, i int, tier string) *scen.Scenario {
 	n := r.Range(1, 60)
 	peers := func(reader bool) []scen.PeerStep {
 		var ps []scen.PeerStep
-		kinds := []string{"ok", "ok", "ok", "eof", "dataeof", "zero", "err", "neg", "over", "panic"}
+		kinds := []string{"ok", "ok", "ok", "eof", "dataeof", "zero", "err", "wrapeof", "unexpeof", "neg", "over", "panic"}
 		if !reader {
 			kinds = []string{"ok", "ok", "short", "err", "over", "neg", "panic"}
 		}
